@@ -73,6 +73,7 @@ func checkC18(c *Ctx) {
 	r.Rule("R18.2", "one cache_write per Write; one cache_delete per removing Delete, none otherwise", 6)
 	r.Rule("R18.3", "ExpireAll/DeleteAll: one Add with the per-entry counter", 6)
 	r.Rule("R18.4", "cache_build = builder invocations, cache_failed = failing ones, cache_refreshed = stale re-stores, per execution of Get", 2)
+	r.Rule("R18.6", "the configured tracker is the one the instance emits to (constructor wiring)", 3)
 	r.Rule("R18.5", "one cache_evict with the evictor's result per evicting cycle", 1)
 	r.NotDecided = []string{"the user's tracker", "totals under real interleavings (need an atomic tracker)", "cache_items gauge timing"}
 	for _, b := range backends {
@@ -90,6 +91,62 @@ func checkC18(c *Ctx) {
 		c.c18Failover(fo)
 	}
 	c.c18Evict()
+	c.c18Wiring()
+}
+
+// c18Wiring: "with a stats tracker attached" — the tracker given in the configuration is the one the instance emits to: every
+// constructor path stores config.Stats into the instance's tracker field.
+func (c *Ctx) c18Wiring() {
+	r := c.R
+	ctors := []string{"Trait.init", "NewFailover", "NewFailoverOf"}
+	if _, fn := c.funcDecl("Trait.init"); fn == nil {
+		ctors[0] = "NewTrait"
+	}
+	for _, ctor := range ctors {
+		_, paths, _, err := c.runFunc(ctor, pw.Policy{Inline: inlineUnexported, MaxDepth: 2})
+		if err != nil {
+			r.Unknown("R18.6", ctor, err.Error())
+			continue
+		}
+		bad := false
+		for _, p := range paths {
+			wired := false
+			statsReads := map[*pw.Val]bool{}
+			for _, ev := range p.Events {
+				if ev.Kind == pw.EvFieldRead && ev.Field != nil && ev.Field.Name() == "Stats" && ev.Value != nil {
+					statsReads[ev.Value] = true
+				}
+			}
+			isStats := func(v *pw.Val) bool {
+				for v != nil && v.Kind == pw.KConv {
+					v = v.Src
+				}
+				return v != nil && (statsReads[v] || v.Kind == pw.KField && v.Field != nil && v.Field.Name() == "Stats")
+			}
+			for _, ev := range p.Events {
+				if ev.Kind == pw.EvFieldWrite && ev.Field != nil && strings.EqualFold(ev.Field.Name(), "stat") {
+					wired = isStats(ev.Value) // the last write counts
+				}
+			}
+			if !wired && len(p.Ret) > 0 {
+				if inst := pointee(p.Ret[0]); inst != nil && inst.Kind == pw.KAlloc {
+					for name, fv := range inst.Fields {
+						if strings.EqualFold(name, "stat") && isStats(fv) {
+							wired = true
+						}
+					}
+				}
+			}
+			if !wired {
+				bad = true
+				r.Bad("R18.6", ctor, "tracker-not-wired", c.Pos(p.RetPos), "the constructor does not store the configured Stats tracker into the instance: no metric is ever emitted", shortTrace(p))
+				break
+			}
+		}
+		if !bad {
+			r.OK("R18.6", ctor, fmt.Sprintf("%d paths store config.Stats as the instance's tracker", len(paths)))
+		}
+	}
 }
 
 func (c *Ctx) c18Read(b BK) {
